@@ -9,7 +9,7 @@ import registry, manifest_text as T
 ids = [json.loads(l)["id"] for l in open(os.path.join(VERIF, "properties.jsonl"))]
 checks, na = [], []
 for pid in ids:
-    if pid in registry.PROPS and pid in T.CLAIMS:
+    if pid in registry.PROPS and pid in T.CLAIMS and pid in T.READY:
         c = T.CLAIMS[pid]
         p = registry.PROPS[pid]
         nq = len([j for j in p.jobs if j.tier == "q"])
